@@ -9,7 +9,7 @@ func init() {
 			"(MERGE) every trip / identified vehicle returned by an entity parser, and every alert-referenced trip, is merged on every path into the accumulator looked up under its own id; accumulators are created only when absent and as zero values; mergeTrip/mergeVehicle always take the identifier and replace the whole entry exactly on the incoming value's IsEntityInMessage edge, otherwise write nothing else (own entity wins, wherever it appears); " +
 			"(UNIQ) Realtime.Trips and the identified part of Realtime.Vehicles are appended only inside the range over the id-keyed accumulator (one entry per key), and only vehicles on the ID == nil edge bypass it; " +
 			"(G6/G16) both are sorted afterwards by a comparator that is total on the key type (TripID.Less consults every field); (ORDER) alerts are tail-appended once per entity in index order and never sorted. " +
-			"(EXTV) the NYCT extension puts the derived vehicle descriptor, unmodified, on every kind of entity on every path, so the trip update and the vehicle position of one trip merge under one vehicle identifier whatever their order. (GUARD) the vehicle identifier holds identifying wire fields only and every time of one message carries one Location object (see C04). (SCAN) no loop that does something per entity is left by a break (an entity of no known kind does not end the message); the sort comparators are chains of stages in which a field compared only `when flag` is qualified by the flag of the stage directly before it (otherwise the order is not total). Not decided: commutativity of the loop body for conflicting duplicates (excluded by the property).",
+			"(EXTV) the NYCT extension puts the derived vehicle descriptor, unmodified, on every kind of entity on every path, so the trip update and the vehicle position of one trip merge under one vehicle identifier whatever their order. (GUARD) the vehicle identifier holds identifying wire fields only and every time of one message carries one Location object (see C04). (SCAN) no loop that does something per entity is left by a break (an entity of no known kind does not end the message); the sort comparators are chains of stages in which a field compared only `when flag` is qualified by the flag of the stage directly before it (otherwise the order is not total). Not decided: commutativity of the loop body for conflicting duplicates (excluded by the property). The identifier comparators call nothing that converts what they compare; an absent start time / date is the zero value, so identifiers that say the same are one map key.",
 		Rules: []Rule{
 			{Name: "A3", Doc: "identifier fields of trips and vehicles are bound to their own wire fields: entities are merged by the identifier that was sent", MinInstances: 35, Run: runWireTable},
 			{Name: "SCAN", Doc: "a loop that does something for each element is not left early (no break out of a processing loop)", MinInstances: 1, Run: func(c *Ctx) { runFullScan(c, realtimeFns(c), "SCAN") }},
@@ -20,6 +20,7 @@ func init() {
 					fns = append(fns, c.regionOf(f)...) // the copy-out and its sort may live in helpers
 				}
 				runG6(c, fns)
+				runComparatorPlain(c, "G6")
 			}},
 			{Name: "GUARD", Doc: "entity parsers return nil only for absent wire fields", MinInstances: 2, Run: runParserGuards},
 			{Name: "LINK", Doc: "the links between trips and vehicles are part of the order-independent result: link discipline as in C04 (links stored after the entity loop, from association tables)", MinInstances: 5, Run: runLinkRules},
@@ -31,7 +32,7 @@ func init() {
 		ID: "C04",
 		Explain: "Decides the link mechanism of ParseRealtime structurally: (LINK) every store to Trip.Vehicle / Vehicle.Trip targets and stores accumulator entries (never a temporary copy of a parsed entity) and happens after the entity loop, so no later merge can erase it; the two association tables are updated together with swapped key and value; on every path where an entity yields both a trip and a vehicle the pair is recorded; every association table is resolved in a loop over the accumulators; within a resolution iteration the links are stored before the entry is copied into the result; " +
 			"each association table is written under the same test that decides where the vehicle itself is kept (the table that keeps the parsed vehicle only under vehicle.ID == nil, the id-keyed ones only under vehicle.ID != nil); no path of one trip around the entity loop on which the entity yields both a trip and a vehicle returns to the loop head without passing one of the link-table updates; (GUARD) the entity parsers return a nil trip/vehicle only when the wire field is absent, so every expression of an association reaches the tables; an identifier object is produced only for a descriptor that identifies something (every non-nil result of the descriptor-to-VehicleID conversion has ruled out the all-empty identifier), so empty descriptors do not share one identified entry; the identifier (the map key that unifies the mentions of a vehicle) is built from the descriptor's id, label and licence plate only; no Location constructor (time.LoadLocation, FixedZone) can run more than once per message, because trip identifiers carry a time.Time and are compared with == (which compares the Location pointer). " +
-			"Equality of the content reached through the links with the list entries follows from the copies being taken after the links are stored (checked) plus C07. Not decided: feeds with several vehicles per trip (excluded). (EXTV) an extension that derives the vehicle of an entity puts the same descriptor on the trip update and the vehicle position, on every path, so both link to one vehicle.",
+			"Equality of the content reached through the links with the list entries follows from the copies being taken after the links are stored (checked) plus C07. Not decided: feeds with several vehicles per trip (excluded). (EXTV) an extension that derives the vehicle of an entity puts the same descriptor on the trip update and the vehicle position, on every path, so both link to one vehicle. The parts of a trip identifier are stored under nil tests of the descriptor only and an absent part is the zero value; the parser's tables only grow (no delete).",
 		Rules: []Rule{
 			{Name: "A3", Doc: "identifier fields of trips and vehicles are bound to their own wire fields: which entities are one vehicle (and get linked) is decided on id, label and licence plate as sent", MinInstances: 35, Run: runWireTable},
 			{Name: "LINK", Doc: "trip<->vehicle link discipline", MinInstances: 5, Run: runLinkRules},
